@@ -366,6 +366,17 @@ def int_from_be_bytes(c):
     bits = int(re.search(r"impl u(\d+)>", c.name).group(1))
     v = c.deref(c.args[0])
     w = v.content() if isinstance(v, Seq) else None
+    if w is None and isinstance(v, Seq) and is_listed(v.items) and len(v.items.f) == bits // 8:
+        # an array assembled from single bytes: when they are consecutive bytes of one identified content, this is a
+        # read of that content
+        reg = c.it.contents.get("bytes", {})
+        locs = []
+        for i in sorted(v.items.f):
+            x = v.items.f[i]
+            nm = next(iter(x.e.t)) if isinstance(x, Num) and len(x.e.t) == 1 and x.e.c == 0 and list(x.e.t.values()) == [1] else None
+            locs.append(reg.get(nm))
+        if all(l is not None for l in locs) and len({l[0] for l in locs}) == 1 and all(c.st.sys.entails_eq(locs[i][1] - locs[0][1] - i) for i in range(len(locs))):
+            w = (locs[0][0], locs[0][1])
     if w is not None and w[0] not in ("cat", "patch", "sub"):
         m = re.match(r"^be(\d+):(.*)$", str(w[0]))
         if m and int(m.group(1)) == bits and c.st.sys.entails_eq(w[1]):
